@@ -99,6 +99,10 @@ def relabellings(ci):
         'float': ci.astype(float),
         'negative': ci - k - 2,
         'float_close': 1.0 + ci * 1e-9,      # distinct labels closer than common tolerances
+        # labels at the extremes of a signed dtype (differences between neighbours overflow)
+        'int8_extremes': np.array([-100, 100, 110, 120, 125, 126, 127][:max(k, 1)], dtype=np.int8)[ci - 1],
+        'int64_extremes': np.array([-2 ** 62, 2 ** 62, 2 ** 62 + 1, 2 ** 62 + 2, 2 ** 62 + 3, 2 ** 62 + 4, 2 ** 62 + 5][:max(k, 1)],
+                                   dtype=np.int64)[ci - 1],
     }
     if k <= 3:
         for p in itertools.permutations(range(1, k + 1)):
